@@ -144,7 +144,7 @@ class L2Domain:
         if t is fakelib.NdarrayType:
             return isinstance(obj, Arr)
         if t is int or t in (fakelib.FakeNumpy.int32, fakelib.FakeNumpy.int64):
-            return isinstance(obj, Size) or (isinstance(obj, int) and not isinstance(obj, bool) and t is int)
+            return isinstance(obj, (Size, SymIdx, A.SymOff)) or (isinstance(obj, int) and not isinstance(obj, bool) and t is int)
         if t is float:
             return isinstance(obj, Arr) and obj.ndim == 0 and obj.dt == 'real'
         if t is complex:
@@ -211,7 +211,8 @@ class Scenario:
                     () if A.is_one(row[k]) else (mode_leg(k, row[k], +1, f'{name}.row' if role == 'op' else name),),
                     () if A.is_one(col[k]) else (mode_leg(k, col[k], -1, f'{name}.col'),),
                     () if A.is_one(ranks[k + 1]) else (rank_leg(name, k + 1, ranks[k + 1]),)]
-            c = Arr([ranks[k], row[k], col[k], ranks[k + 1]], legs, dtype, None, {'input': (name, k)}, f'{name}.cores[{k}]')
+            dt = dtype[k] if isinstance(dtype, (list, tuple)) else dtype
+            c = Arr([ranks[k], row[k], col[k], ranks[k + 1]], legs, dt, None, {'input': (name, k)}, f'{name}.cores[{k}]')
             c.buf.owner = name
             out.append(c)
         return out
